@@ -115,3 +115,20 @@ package cdb
 //@ requires len(buf) >= 8
 //@ modifies buf[0:8]
 //@ loop 0 invariant 0 <= idx && idx <= len(slots)
+
+// ---- Dump (C16: dumping a file and rebuilding it reproduces the file) ----------------------------------------
+// Every 32-bit number of the file is decoded from four bytes that were actually read: a reader may return fewer
+// bytes than asked for (bufio does at the end of its buffer), so one Read call is not enough.
+//@ ghostvar lastReadN int
+//@ extern io Reader.Read
+//@ updates lastReadN
+//@ ensures 0 <= lastReadN && lastReadN <= len(p) && n == lastReadN
+//@ extern io ReadFull
+//@ updates lastReadN
+//@ ensures 0 <= lastReadN && lastReadN <= len(buf) && n == lastReadN && (err == nil ==> lastReadN == len(buf))
+//@ func makeNumReader@read
+//@ region funclit#0
+//@ flag skip frame,unreachable-panic
+//@ updates lastReadN
+//@ requires len(buf) == 4
+//@ ensures[whole] lastReadN == 4
